@@ -409,7 +409,7 @@ func c10Frame(p *Program, r *Report, a *addrAnalysis, fn *ssa.Function, in ssa.I
 		for d := in.Block(); d != nil && d.Idom() != nil; d = d.Idom() {
 			id := d.Idom()
 			if iff, isIf := id.Instrs[len(id.Instrs)-1].(*ssa.If); isIf {
-				if bo, isBo := iff.Cond.(*ssa.BinOp); isBo && bo.Op == token.EQL && a.symInt(fn, bo.X, 0) == "int(Index)" && a.symInt(fn, bo.Y, 0) == "len(Item)" && (id.Succs[0] == d || id.Succs[0].Dominates(d)) && len(id.Succs[0].Preds) == 1 {
+				if bo, isBo := iff.Cond.(*ssa.BinOp); isBo && bo.Op == token.EQL && a.symInt(fn, bo.X, 0) == "int(Index)" && a.symInt(fn, bo.Y, 0) == "len(Item)" && edgeOnly(id, 0, d) {
 					ok = true
 				}
 			}
@@ -528,7 +528,7 @@ func c10Hashable(p *Program, r *Report, m *vmModel, sums *typeSummaries) {
 						if !ok || staticCallee(pc) != pred || !tt.sameValue(pc.Call.Args[0], key) {
 							continue
 						}
-						if (id.Succs[edge] == d || id.Succs[edge].Dominates(d)) && !(id.Succs[1-edge] == d || id.Succs[1-edge].Dominates(d)) {
+						if edgeOnly(id, edge, d) {
 							how = "the key passed " + pred.Name()
 						}
 					}
@@ -544,7 +544,7 @@ func dominatedByCall(b *ssa.BasicBlock, method string, arg ssa.Value) bool {
 	for d := b; d != nil && d.Idom() != nil; d = d.Idom() {
 		id := d.Idom()
 		if iff, ok := id.Instrs[len(id.Instrs)-1].(*ssa.If); ok {
-			if c, ok := iff.Cond.(*ssa.Call); ok && reflectMethod(c) == method && c.Call.Args[0] == arg && (id.Succs[0] == d || id.Succs[0].Dominates(d)) {
+			if c, ok := iff.Cond.(*ssa.Call); ok && reflectMethod(c) == method && c.Call.Args[0] == arg && edgeOnly(id, 0, d) {
 				return true
 			}
 		}
@@ -786,7 +786,7 @@ func afterOtherLookup(b *ssa.BasicBlock, not ssa.Value) bool {
 		}
 		if ex, ok := iff.Cond.(*ssa.Extract); ok && ex.Index == 1 {
 			if c, ok := ex.Tuple.(*ssa.Call); ok && strings.HasSuffix(c.Call.Method.Name(), "ByName") {
-				if id.Succs[0] == d || id.Succs[0].Dominates(d) {
+				if edgeOnly(id, 0, d) {
 					return true
 				}
 			}
